@@ -21,8 +21,12 @@ def mk_doc(h, spec, counter):
     def tok():
         counter[0] += 1
         return 'T%d' % counter[0]
+    meta = None
     for b in spec:
         k = b[0]
+        if k == 'M':
+            meta = b[1]
+            continue
         if k == 'H':
             t = tok(); r, l = lr()
             neutral.append({'k': 'Header', 't': t, 'lv': 1, 'lr': l}); vals.append(h.header(1, [h.istr(t)], r))
@@ -65,7 +69,9 @@ def mk_doc(h, spec, counter):
             vals.append(h.quote([h.para([h.ilink(b[1], t)], r)], r))
         else:
             raise ValueError(k)
-    return neutral, h.document(vals)
+    if meta is not None:
+        neutral = [{'k': 'Meta', 't': meta}] + neutral
+    return neutral, h.document(vals, meta)
 
 def block_menu(targets, rich):
     m = [('P',), ('T',), ('C',), ('U',)]
@@ -123,6 +129,8 @@ def scan_links(blocks, note_key, out_block, out_inline, ord_counter):
     """pre-order scan of a neutral document: ordinals follow arena pre-order (container nodes count too)"""
     for b in blocks:
         k = b['k']
+        if k == 'Meta':
+            continue
         if k == 'Ref':
             o = ord_counter[0]; ord_counter[0] += 1
             tgt = resolve(b['url'], note_key)
@@ -196,6 +204,8 @@ class LibHarness(Harness):
         Harness.__init__(self, prog, tier)
         if name: self.name = name
         self.mode = mode
+        if mode == 'meta':
+            self.required_covers = ('update-existing', 'front-matter')
         self.keys = ['a', 'b']
         self.bounds = {'notes': 2, 'history_steps': 1 if tier == 'quick' else 2,
                        'old_doc_blocks': 1, 'new_doc_blocks': 2 if tier == 'quick' else 2,
@@ -231,6 +241,8 @@ class LibHarness(Harness):
             obs['block_refs_to:' + k] = sorted(name_id(c.v, nodes, om) for c in br.items)
             obs['inline_refs_to:' + k] = sorted(name_id(c.v, nodes, om) for c in ir.items)
             obs['title:' + k] = pyval(ex.call('Graph::get_key_title', [gref, Ref(Cell(kv))]))
+            me = g.get('metadata').d.get((kv.ty, k))
+            obs['metadata:' + k] = pyval(me[1].v) if me else None
         for k in sorted(texts):
             kv = h.key(k)
             t = ex.call('<&Graph as GraphContext>::collect', [Ref(Cell(gref)), Ref(Cell(kv))])
@@ -258,7 +270,10 @@ class LibHarness(Harness):
         targets = [oth, 'zz', upd]
         other_menu = [[('P',)], [('H',), ('R', upd)], [('I', upd)], [('R', 'zz')]] + ([] if quick else [[('H',), ('P',)], [('I', 'zz')]])
         other_spec = other_menu[ctx.choose(len(other_menu))]
-        if quick:
+        if self.mode == 'meta':
+            other_spec = [('P',)]
+            old_spec = ([('M', 'title: x\n')] if ctx.choose(2) else []) + [('H',), ('P',)]
+        elif quick:
             old_menu = [[], [('P',)], [('R', oth)], [('I', oth)], [('R', 'zz')], [('I', 'zz')],
                         [('T',), ('P',)], [('T',), ('R', oth)], [('C',), ('I', oth)], [('U',), ('P',)]]
             old_spec = ([('H',)] if ctx.choose(2) else []) + old_menu[ctx.choose(len(old_menu))]
@@ -269,11 +284,14 @@ class LibHarness(Harness):
         step_texts = []
         g = self.fresh(ex, texts)
         gref = Ref(Cell(g))
-        steps = 1 if quick else 2
+        steps = 2 if (self.mode == 'meta' or not quick) else 1
         hist = []
         line = ctx.sym_bv('line', 64)
         for step in range(steps):
-            if step == 0:
+            if self.mode == 'meta':
+                key = [upd, oth][ctx.choose(2)] if step else upd
+                spec = ([('M', 'title: y\n')] if ctx.choose(2) else []) + [('P',)]
+            elif step == 0:
                 key = upd
                 spec = gen_doc_spec(ctx, targets[:2] if quick else targets, 2, not quick, small_tail=quick)
             else:
@@ -321,6 +339,11 @@ class LibHarness(Harness):
             omb = ordinals(before, {k: v for k, v in keys_i.items() if k != key})
             touched = [i for i in omb if before[i] != nodes_i[i]]
             ctx.law('C20.other-notes-untouched', not touched, dict(info, touched=touched[:5], step=step))
+            # ---- C01: front-matter kept verbatim (a restart answers with the document's own front-matter)
+            for k, tok_ in sorted(texts.items()):
+                dm = [b['t'] for b in self.cur_docs[tok_][0] if b['k'] == 'Meta']
+                ctx.law('C01.front-matter-kept', of['metadata:' + k] == (dm[0] if dm else None), dict(info, note=k, graph_metadata=of['metadata:' + k], document=dm))
+                if dm: ctx.cover('front-matter')
             # ---- C05 / H5: backlinks vs independent scan of the documents (fresh graph = what a restart would answer)
             self.backlink_laws(ctx, of, texts, info, 'fresh')
             self.backlink_laws(ctx, oi, texts, info, 'incremental')
@@ -366,7 +389,7 @@ class LibHarness(Harness):
         probes = []
         allk = sorted(set(texts) | {'zz'})
         for k in allk:
-            probes += [{'op': 'block_refs_to', 'key': k}, {'op': 'inline_refs_to', 'key': k}, {'op': 'title', 'key': k}]
+            probes += [{'op': 'block_refs_to', 'key': k}, {'op': 'inline_refs_to', 'key': k}, {'op': 'title', 'key': k}, {'op': 'metadata', 'key': k}]
         probes += [{'op': 'paths'}, {'op': 'arena'}, {'op': 'keys'}]
         for k in sorted(texts):
             probes.append({'op': 'collect', 'key': k})
@@ -379,11 +402,12 @@ class LibHarness(Harness):
         nodes, keys = res[-2 - nt], res[-1 - nt]
         om = ordinals(nodes, keys)
         out = {}
-        i = len(res) - (3 * len(set(texts) | {'zz'}) + 3 + nt)
+        i = len(res) - (4 * len(set(texts) | {'zz'}) + 3 + nt)
         for k in sorted(set(texts) | {'zz'}):
             out['block_refs_to:' + k] = sorted(name_id(x, nodes, om) for x in res[i]); i += 1
             out['inline_refs_to:' + k] = sorted(name_id(x, nodes, om) for x in res[i]); i += 1
             out['title:' + k] = res[i]; i += 1
+            out['metadata:' + k] = res[i]; i += 1
         out['paths'] = sorted([name_id(x, nodes, om) for x in p] for p in res[i]); i += 3
         for k in sorted(texts):
             out['tree:' + k] = strip_ids(res[i]); i += 1
@@ -503,8 +527,12 @@ def render_neutral(blocks, indent=''):
             elif i['k'] == 'Link': parts.append('[x](%s)' % i['url'])
             elif i['k'] == 'Emph': parts.append('*[x](%s)*' % i['c'][0]['url'])
         return ''.join(parts)
+    front = ''
     for b in blocks:
         k = b['k']
+        if k == 'Meta':
+            front = '---\n' + b['t'] + '---\n\n'
+            continue
         if k == 'Header': out.append('# ' + inl(b))
         elif k == 'Para': out.append(inl(b))
         elif k == 'Ref': out.append('[%s](%s)' % (b['t'], b['url']))
@@ -518,32 +546,10 @@ def render_neutral(blocks, indent=''):
                 body = render_neutral(it).rstrip('\n').split('\n')
                 items.append('\n'.join(('- ' if j == 0 else ('  ' if l else '')) + l for j, l in enumerate(body)))
             out.append('\n'.join(items))
-    return '\n\n'.join(out) + '\n'
+    return front + '\n\n'.join(out) + '\n'
 
 
 def natives_as_str(v):
     import natives
     return natives.as_str(v)
 
-def render_md(spec):
-    """Markdown text whose parse is the document of `spec` (each production witnessed natively at setup)"""
-    out = []
-    n = [0]
-    def tok():
-        n[0] += 1
-        return 'w%d' % n[0]
-    for b in spec:
-        b = tuple(b)
-        k = b[0]
-        if k == 'H': out.append('# ' + tok())
-        elif k == 'HL': out.append('# %s [x](%s)' % (tok(), b[1]))
-        elif k == 'P': out.append(tok())
-        elif k == 'R': out.append('[%s](%s)' % (tok(), b[1]))
-        elif k == 'I': out.append('%s [x](%s)' % (tok(), b[1]))
-        elif k == 'E': out.append('%s *[x](%s)*' % (tok(), b[1]))
-        elif k == 'T': out.append('| %s |\n|---|\n| %s |' % (tok(), tok()))
-        elif k == 'C': out.append('```rs\n%s\n```' % tok())
-        elif k == 'U': out.append('---')
-        elif k == 'L': out.append('- %s [x](%s)\n\n  [%s](%s)' % (tok(), b[1], tok(), b[1]))
-        elif k == 'Q': out.append('> [%s](%s)' % (tok(), b[1]))
-    return '\n\n'.join(out) + '\n'
